@@ -314,6 +314,9 @@ class Evaluator:
         self.ext_calls = ext_calls or {}  # dotted -> callable(ev, *args, **kwargs), rule-supplied summaries
         self._in_getattribute = set()
         self.class_stores = {}  # (class fq, attr) -> value assigned at run time (Cls.attr = v): shared by all instances
+        self.watched = {}  # id(container) -> label: native dicts/lists whose writers are recorded in watch_hits
+        self.watch_hits = []  # (label, how, node)
+        self.watch_abort = False  # raise WatchedWrite at the first write that changes a watched container
         self.summaries = dict(PROJECT_SUMMARIES)  # fq -> callable(ev, *args, **kwargs); rules may add
         self.colour = colour
         self.depth = 0
@@ -579,6 +582,8 @@ class Evaluator:
         if isinstance(f, ClassVal):
             return self.instantiate(f, args, kwargs)
         if isinstance(f, _NativeFn):
+            if self.watched and id(getattr(f.fn, "__self__", None)) in self.watched and getattr(f.fn, "__name__", "") in _MUTATORS:
+                return self._watched_call(f.fn, args, kwargs, node)
             try:
                 return f.fn(*args, **kwargs)
             except (Raised, Undecided):
@@ -600,6 +605,8 @@ class Evaluator:
         if isinstance(f, type) and f in (ValueError, KeyError, NotImplementedError, RuntimeError, TypeError, AssertionError, IndexError, AttributeError):
             return _ExcVal(f.__name__, args[0] if args else "")
         if callable(f):
+            if self.watched and id(getattr(f, "__self__", None)) in self.watched and getattr(f, "__name__", "") in _MUTATORS:
+                return self._watched_call(f, args, kwargs, node)
             try:
                 return f(*args, **kwargs)
             except (Raised, Undecided):
@@ -610,6 +617,20 @@ class Evaluator:
                     raise Raised(type(e).__name__, str(e), node)
                 raise
         raise Undecided(f"call of {type(f).__name__}")
+
+    def _watched_call(self, fn, args, kwargs, node):
+        c = fn.__self__
+        before = _shallow(c)
+        try:
+            r = fn(*args, **kwargs)
+        except (ValueError, KeyError, IndexError, AttributeError, TypeError) as e:
+            raise Raised(type(e).__name__, str(e), node)
+        if _shallow(c) != before:
+            hit = (self.watched[id(c)], f".{fn.__name__}(...)", node)
+            self.watch_hits.append(hit)
+            if self.watch_abort:
+                raise WatchedWrite(*hit)
+        return r
 
     def call_func(self, fv, args, kwargs, node=None):
         fi = fv.finfo
@@ -823,6 +844,11 @@ class Evaluator:
                     k = self.eval(t.slice, env)
                     if isinstance(c, ObjVal):
                         c = c.store
+                    if id(c) in self.watched:
+                        hit = (self.watched[id(c)], "del [...]", t)
+                        self.watch_hits.append(hit)
+                        if self.watch_abort:
+                            raise WatchedWrite(*hit)
                     del c[k]
                 elif isinstance(t, ast.Name):
                     env.vars.pop(t.id, None)
@@ -899,6 +925,16 @@ class Evaluator:
             if isinstance(o, ObjVal):
                 o.store[k] = v
             elif isinstance(o, (dict, list)):
+                if id(o) in self.watched:
+                    try:
+                        unchanged = o[k] is v or bool(o[k] == v)
+                    except Exception:
+                        unchanged = False
+                    if not unchanged:
+                        hit = (self.watched[id(o)], "[...] = ...", t)
+                        self.watch_hits.append(hit)
+                        if self.watch_abort:
+                            raise WatchedWrite(*hit)
                 o[k] = v
             elif isinstance(o, Arr) and isinstance(k, int):
                 o.data[k] = v
@@ -1382,6 +1418,18 @@ def is_inf(v):
     return isinstance(v, float) and math.isinf(v)
 
 
+class WatchedWrite(Exception):
+    """A watched (caller-owned) container was modified by the folded code."""
+
+    def __init__(self, label, how, node):
+        super().__init__(f"{label} via {how}")
+        self.label, self.how, self.node = label, how, node
+
+
+def _shallow(c):
+    return dict(c) if isinstance(c, dict) else list(c)
+
+
 class _NativeFn:
     def __init__(self, fn):
         self.fn = fn
@@ -1525,6 +1573,9 @@ def _canon_ext(d):
     if parts[0] == "nb":
         parts[0] = "numba"
     return ".".join(parts)
+
+
+_MUTATORS = {"setdefault", "update", "pop", "popitem", "clear", "append", "extend", "insert", "remove", "sort", "reverse", "__setitem__", "__delitem__"}
 
 
 # ---- builtins / external summaries -----------------------------------------
